@@ -33,8 +33,22 @@ class Sink:
         return ''.join(self.parts)
 
 
+class StrVar:
+    """Stand-in for a 0-d string variable: what iterating a 1-d string variable yields (an sc.Variable, not a str)."""
+    variance = None
+    variances = None
+    ndim = 0
+    dtype = 'string'
+
+    def __init__(self, value: str):
+        self.value = value
+
+    def __repr__(self):
+        return f'<scipp.Variable () string {self.value!r}>'
+
+
 class Col(list):
-    """Stand-in for a 1-d string variable in a loop (duck-typed by Loop)."""
+    """Stand-in for a 1-d string variable in a loop (duck-typed by Loop): iteration yields 0-d variables."""
     ndim = 1
     dtype = 'string'  # == scipp.DType.string in the abstract interpreter
 
@@ -46,6 +60,9 @@ class Col(list):
     def values(self):
         return list(self)
 
+    def __iter__(self):
+        return iter([StrVar(x) if isinstance(x, str) else x for x in list.__iter__(self)])
+
 
 class Person:
     def __init__(self, name, role=None, corresponding=False, email=None, address=None, orcid_id=None):
@@ -53,10 +70,23 @@ class Person:
         self.email, self.address, self.orcid_id = email, address, orcid_id
 
 
+class ValueModel(Model):
+    """Plain model that knows the 0-d string variable stand-in."""
+
+    def _isinstance(self, interp, x, t, node):
+        if isinstance(x, StrVar):
+            ts = t if isinstance(t, tuple) else (t,)
+            return any(getattr(t_, 'path', '') == 'scipp.Variable' for t_ in ts)
+        return super()._isinstance(interp, x, t, node)
+
+
 class CifModel(WitnessModel):
     """WitnessModel plus a text sink that passes for an open text file."""
 
     def _isinstance(self, interp, x, t, node):
+        if isinstance(x, StrVar):
+            ts = t if isinstance(t, tuple) else (t,)
+            return any(getattr(t_, 'path', '') == 'scipp.Variable' for t_ in ts)
         if isinstance(x, Sink):
             if isinstance(t, tuple):
                 return True
@@ -107,7 +137,7 @@ def run(tier: str) -> Run:
     run.analysed = {'modules': [MOD], 'digest': repo.digest.hexdigest()}
     run.trusted = ['spec/cif11.py (CIF 1.1 lexical rules)', 'sa/interp.py concrete evaluation of str methods']
     T.reset()
-    it = Interp(repo, Model())
+    it = Interp(repo, ValueModel())
     chunk_cls, loop_cls = repo.cls(MOD, 'Chunk'), repo.cls(MOD, 'Loop')
 
     max_len = 3 if tier == 'quick' else 4
@@ -207,6 +237,9 @@ def run(tier: str) -> Run:
     r2 = run.rule('R2', 'output is ASCII; comment text never becomes data; block names are sanitised', 5)
     text = write_chunk({'k': 'é ü', 'k2': 'ö\nä'}, comment='cömment\nline 2')
     r2.check(text.isascii(), 'non-ASCII values and comments are escaped', where_of(repo, MOD, '_encode_non_ascii', 'save_cif'), {'written': text}, key='ascii')
+    text = write_loop({'c1': ['é ü', 'p'], 'c2': ['q', 'Ångström']}) + write_chunk({'k': StrVar('naïve')})
+    r2.check(text.isascii(), 'non-ASCII strings held in variables (loop columns, scalar variables) are escaped', where_of(repo, MOD, '_format_value', 'save_cif'),
+             {'written': text}, key='ascii-variables')
     bad = []
     for c in ['x', '_tag value', 'a\n_tag value', 'a\r_tag v', 'loop_\n_a\n1', '; text\n;', 'data_x', 'a\x0b_t v', '\n_t v']:
         text = write_chunk({'k': 'v'}, comment=c)
